@@ -144,6 +144,18 @@ Theorem ac_first_occurrence_dup_id_refuted :
 Proof. exact Proofs.Autocorrect.ac_first_occurrence_dup_id_refuted. Qed.
 Print Assumptions ac_first_occurrence_dup_id_refuted.
 
+(* residual of fix c799e63: the names of the file are reserved by PrefLibInstance.parse_lines; the header loop of
+   OrdinalInstance.parse run on its own (reserved_names empty, i.e. a caller that invokes
+   instance.parse(lines, autocorrect=True) directly instead of parse_lines / parse_file / parse_str) still
+   renames the first alternative carrying the name X__1.  The entry points are covered by the theorems above. *)
+Theorem ac_direct_parse_refuted :
+  exists lines m nu rest,
+    OrdIO.header_loop true (meta0 (lit "soc"), 0%N) lines = Ok ((m, nu), rest) /\
+    raw_names alt_name_prefix lines = [(1, lit "X"); (2, lit "X"); (3, lit "X__1")]%N /\
+    alt_names m = [(1, lit "X"); (2, lit "X__1"); (3, lit "X__1__1")]%N.
+Proof. exact Proofs.Autocorrect.ac_direct_parse_refuted. Qed.
+Print Assumptions ac_direct_parse_refuted.
+
 (* ================================================================================================ *)
 (* ac_clean_noop: on clean content (no raw name listed twice, no ballot on two lines, header counts   *)
 (* equal to the recomputed ones) both flags give the same result - instance or error - up to the      *)
@@ -160,6 +172,33 @@ Theorem ac_clean_noop_cat : forall m0 lines, alt_names m0 = [] -> cat_clean m0 l
   = rmap forget_reserved_c (CatIO.cat_parse false false m0 lines).
 Proof. exact Proofs.Autocorrect.ac_clean_noop_cat. Qed.
 Print Assumptions ac_clean_noop_cat.
+
+(* ================================================================================================ *)
+(* the checks of sanity.py that autocorrect is meant to satisfy, on the autocorrected instance:      *)
+(* sanity.orders / sanity.categories: len(ballots) = len(multiplicity); num_voters = sum(multiplicity *)
+(* .values()); unique count = len(ballots); len(set(ballots)) = len(ballots);  sanity.metadata:       *)
+(* num_alternatives = len(alternatives_name); len(set(names)) = num_alternatives                      *)
+(* ================================================================================================ *)
+Theorem ac_sanity_ord : forall m0 lines i, alt_names m0 = [] -> OrdIO.ord_parse true false m0 lines = Ok i ->
+  List.length (OrdIO.o_orders i) = List.length (OrdIO.o_mult i) /\
+  num_voters (OrdIO.o_meta i) = sum_N (values (OrdIO.o_mult i)) /\
+  OrdIO.o_num_unique i = N.of_nat (List.length (OrdIO.o_orders i)) /\
+  NoDup (OrdIO.o_orders i) /\
+  num_alternatives (OrdIO.o_meta i) = N.of_nat (List.length (alt_names (OrdIO.o_meta i))) /\
+  NoDup (values (alt_names (OrdIO.o_meta i))).
+Proof. exact Proofs.Autocorrect.ac_sanity_ord. Qed.
+Print Assumptions ac_sanity_ord.
+
+Theorem ac_sanity_cat : forall m0 lines i, alt_names m0 = [] -> CatIO.cat_parse true false m0 lines = Ok i ->
+  List.length (CatIO.c_prefs i) = List.length (CatIO.c_mult i) /\
+  num_voters (CatIO.c_meta i) = sum_N (values (CatIO.c_mult i)) /\
+  CatIO.c_num_unique i = N.of_nat (List.length (CatIO.c_prefs i)) /\
+  NoDup (CatIO.c_prefs i) /\
+  num_alternatives (CatIO.c_meta i) = N.of_nat (List.length (alt_names (CatIO.c_meta i))) /\
+  NoDup (values (alt_names (CatIO.c_meta i))) /\
+  NoDup (values (CatIO.c_cat_names i)).
+Proof. exact Proofs.Autocorrect.ac_sanity_cat. Qed.
+Print Assumptions ac_sanity_cat.
 
 (* ================================================================================================ *)
 (* non-vacuity                                                                                      *)
